@@ -613,3 +613,254 @@ Proof.
     cbn [Z.eqb Pos.eqb orb]. rewrite Hs in Hall.
     apply (skip_fields_ok e _ l H Hall f); lia.
 Qed.
+
+(** * Unknown fields are skipped: a reader with declarations [decls] decodes what a writer with the
+      larger schema [ftyp] wrote, dropping exactly the fields it does not declare *)
+Definition known (decls : list field) (ix : Z * val) : bool :=
+  match ftyp_of decls (fst ix) with Some _ => true | None => false end.
+
+Lemma unknown_fields_skipped e decls ftyp l :
+  (forall id ft, ftyp_of decls id = Some ft -> ftyp id = Some ft) ->
+  Forall (wwt_entry_by e ftyp) l ->
+  Forall (fun ix => wdepth (snd ix) <= 64) l ->
+  forall fuel rest, (size_fields l <= fuel)%nat ->
+  wdec_fields fuel e decls (wenc_fields e ftyp l ++ rest) = Ok (filter (known decls) l, rest).
+Proof.
+  intros Hagree Hwt Hdep. induction l as [|[i x] r IH]; intros fuel rest Hf.
+  - cbn [size_fields] in Hf. destruct fuel as [|f]; [lia|].
+    cbn [wdec_fields wenc_fields app filter]. rewrite read_int_1 by lia. reflexivity.
+  - inversion Hwt as [|? ? [Wi Wx] Wr]; subst. inversion Hdep as [|? ? Dx Dr]; subst.
+    cbn [fst snd] in *.
+    cbn [size_fields] in Hf. destruct fuel as [|f]; [lia|].
+    destruct (ftyp i) as [ft|] eqn:Eft; [|contradiction].
+    cbn [wdec_fields wenc_fields]. rewrite Eft.
+    pose proof (wwt_wtype _ _ _ Wx) as Hw.
+    cbn [app]. rewrite read_int_1 by lia. cbn [bind].
+    destruct (wtype e ft =? 0) eqn:E0; [apply Z.eqb_eq in E0; lia|].
+    rewrite <- !app_assoc. rewrite read_int_be by (assumption || lia). cbn [bind].
+    cbn [filter]. unfold known at 1. cbn [fst].
+    destruct (ftyp_of decls i) as [ft'|] eqn:Ed.
+    + pose proof (Hagree _ _ Ed) as Ha. rewrite Eft in Ha. injection Ha as <-.
+      rewrite (wdec_wenc e x ft f _ Wx) by lia. cbn [bind].
+      rewrite (IH Wr Dr f rest) by lia. reflexivity.
+    + unfold skip_default.
+      rewrite (skip_wenc e x ft f 64 _ Wx) by lia. cbn [bind].
+      apply (IH Wr Dr f rest); lia.
+Qed.
+
+(** * The generated Write: which fields go on the wire *)
+Fixpoint tw_fields (e : env) (fs : list field) (ovs : list (option val)) {struct ovs}
+  : res (list (Z * val)) :=
+  match fs, ovs with
+  | [], [] => Ok []
+  | f :: fs', ov :: ovs' =>
+    if is_optional f && negb (isset e f ov) then tw_fields e fs' ovs' else
+    do w <- match ov with
+            | Some x => to_wire e (fty f) x
+            | None => nil_wire e (fty f)
+            end;
+    do r <- tw_fields e fs' ovs'; Ok ((fid f, w) :: r)
+  | _, _ => Err EOther
+  end.
+
+Lemma to_wire_struct_eq e t ovs :
+  to_wire e t (VStruct ovs) =
+  match shape_of e t with
+  | SStruct k decls =>
+    if is_union k && negb (count_set e decls ovs =? 1) then Err EInvalidData else
+    do l' <- tw_fields e decls ovs; Ok (VRec l')
+  | _ => Err EOther
+  end.
+Proof.
+  cbn [to_wire]. cbv zeta. destruct (shape_of e t); try reflexivity.
+  destruct (is_union k && negb (count_set e fs ovs =? 1)); [reflexivity|].
+  f_equal.
+  revert fs. induction ovs as [|ov ovs IH]; intros [|f fs]; try reflexivity.
+  cbn [tw_fields]. rewrite <- IH. reflexivity.
+Qed.
+
+(** a field is written iff it is required/default, or optional and set *)
+Definition written (e : env) (f : field) (ov : option val) : bool :=
+  negb (is_optional f) || isset e f ov.
+
+(** [l] is exactly: for every declared field in declaration order that is [written], its id with
+    the wire form of its value (nil slices/maps/binary as empty) *)
+Fixpoint written_spec (e : env) (fs : list field) (ovs : list (option val)) (l : list (Z * val)) : Prop :=
+  match fs, ovs with
+  | [], [] => l = []
+  | f :: fs', ov :: ovs' =>
+    if written e f ov then
+      exists w l', l = (fid f, w) :: l' /\
+                   match ov with
+                   | Some x => to_wire e (fty f) x = Ok w
+                   | None => nil_wire e (fty f) = Ok w
+                   end /\ written_spec e fs' ovs' l'
+    else written_spec e fs' ovs' l
+  | _, _ => False
+  end.
+
+Lemma tw_fields_spec e fs ovs l : tw_fields e fs ovs = Ok l -> written_spec e fs ovs l.
+Proof.
+  revert fs l. induction ovs as [|ov ovs IH]; intros [|f fs] l H; cbn [tw_fields] in H; try discriminate.
+  - injection H as <-. reflexivity.
+  - cbn [written_spec]. unfold written.
+    destruct (is_optional f) eqn:Eo; cbn [negb andb orb] in *.
+    + destruct (isset e f ov) eqn:Es; cbn [negb] in *.
+      * destruct (match ov with Some x => to_wire e (fty f) x | None => nil_wire e (fty f) end) as [w| | |] eqn:Ew;
+          cbn [bind] in H; try discriminate.
+        destruct (tw_fields e fs ovs) as [r| | |] eqn:Er; cbn [bind] in H; try discriminate.
+        injection H as <-. exists w, r. split; [reflexivity|]. split; [|apply IH; assumption].
+        destruct ov; assumption.
+      * apply IH; assumption.
+    + destruct (match ov with Some x => to_wire e (fty f) x | None => nil_wire e (fty f) end) as [w| | |] eqn:Ew;
+        cbn [bind] in H; try discriminate.
+      destruct (tw_fields e fs ovs) as [r| | |] eqn:Er; cbn [bind] in H; try discriminate.
+      injection H as <-. exists w, r. split; [reflexivity|]. split; [|apply IH; assumption].
+      destruct ov; assumption.
+Qed.
+
+Fixpoint written_ids (e : env) (fs : list field) (ovs : list (option val)) : list Z :=
+  match fs, ovs with
+  | f :: fs', ov :: ovs' =>
+    if written e f ov then fid f :: written_ids e fs' ovs' else written_ids e fs' ovs'
+  | _, _ => []
+  end.
+
+Lemma written_spec_ids e fs ovs l : written_spec e fs ovs l -> map fst l = written_ids e fs ovs.
+Proof.
+  revert fs l. induction ovs as [|ov ovs IH]; intros [|f fs] l H; cbn [written_spec] in H; try contradiction.
+  - subst. reflexivity.
+  - cbn [written_ids]. destruct (written e f ov).
+    + destruct H as [w [l' [-> [_ H]]]]. cbn [map fst]. f_equal. apply IH; assumption.
+    + apply IH; assumption.
+Qed.
+
+(** layout of the bytes of a struct-like: every written field as
+    [wire type of the declared type; id; value], then the stop byte *)
+Lemma gwrite_struct e t ovs b :
+  gwrite e t (VStruct ovs) = Ok b ->
+  exists k decls l,
+    shape_of e t = SStruct k decls /\
+    (is_union k = true -> count_set e decls ovs = 1) /\
+    written_spec e decls ovs l /\ map fst l = written_ids e decls ovs /\
+    b = wenc_fields e (ftyp_of decls) l.
+Proof.
+  unfold gwrite. rewrite to_wire_struct_eq. intros H.
+  destruct (shape_of e t) eqn:Es; cbn [bind] in H; try discriminate.
+  destruct (is_union k && negb (count_set e fs ovs =? 1)) eqn:Eu; cbn [bind] in H; [discriminate|].
+  destruct (tw_fields e fs ovs) as [l| | |] eqn:El; cbn [bind] in H; try discriminate.
+  injection H as <-. exists k, fs, l.
+  pose proof (tw_fields_spec _ _ _ _ El) as Hsp.
+  repeat split; try assumption.
+  - intros Hk. rewrite Hk in Eu. cbn [andb] in Eu.
+    destruct (count_set e fs ovs =? 1) eqn:E1; [apply Z.eqb_eq in E1; exact E1|discriminate].
+  - apply written_spec_ids; assumption.
+  - change (wenc e t (VRec l) = wenc_fields e (ftyp_of fs) l).
+    rewrite wenc_rec_eq, Es. reflexivity.
+Qed.
+
+(** a union on the wire has exactly one field *)
+Lemma count_written e fs ovs :
+  Forall (fun f => is_optional f = true) fs -> length fs = length ovs ->
+  Z.of_nat (length (written_ids e fs ovs)) = count_set e fs ovs.
+Proof.
+  intros Hopt. revert ovs. induction Hopt as [|f fs Hf _ IH]; intros [|ov ovs] Hl; cbn in Hl; try discriminate.
+  - reflexivity.
+  - cbn [written_ids count_set]. unfold written. rewrite Hf. cbn [negb orb].
+    injection Hl as Hl. specialize (IH ovs Hl).
+    destruct (isset e f ov); cbn [length]; lia.
+Qed.
+
+Lemma union_one_field e t ovs b k decls :
+  shape_of e t = SStruct k decls -> is_union k = true ->
+  Forall (fun f => is_optional f = true) decls -> length decls = length ovs ->
+  gwrite e t (VStruct ovs) = Ok b ->
+  exists id w, b = wenc_fields e (ftyp_of decls) [(id, w)] /\ written_ids e decls ovs = [id].
+Proof.
+  intros Hs Hk Hopt Hlen H.
+  destruct (gwrite_struct _ _ _ _ H) as [k' [decls' [l [Hs' [Hu [Hsp [Hids ->]]]]]]].
+  rewrite Hs in Hs'. injection Hs' as <- <-.
+  specialize (Hu Hk). pose proof (count_written e decls ovs Hopt Hlen) as Hc.
+  rewrite Hu, <- Hids, map_length in Hc.
+  destruct l as [|[id w] [|? ?]]; cbn [length] in Hc; try lia.
+  exists id, w. split; [reflexivity|]. rewrite <- Hids. reflexivity.
+Qed.
+
+(** * The generated Read on a wire struct *)
+Fixpoint fw_fields (e : env) (decls : list field) (l : list (Z * val)) (st : list (option val))
+  : res (list (option val)) :=
+  match l with
+  | [] => Ok st
+  | (id, x) :: r =>
+    match find_field decls id with
+    | Some f => do g <- from_wire e (fty f) x; fw_fields e decls r (store decls id (Some g) st)
+    | None => fw_fields e decls r st
+    end
+  end.
+
+Lemma from_wire_rec_eq e t l :
+  from_wire e t (VRec l) =
+  match shape_of e t with
+  | SStruct k decls =>
+    do st <- fw_fields e decls l (new_struct e decls);
+    if negb (required_seen decls (map fst l)) then Err EInvalidData else
+    if is_union k && negb (count_set e decls st =? 1) then Err EInvalidData else
+    Ok (VStruct st)
+  | _ => Err EOther
+  end.
+Proof.
+  cbn [from_wire]. cbv zeta. destruct (shape_of e t); try reflexivity.
+  f_equal. generalize (new_struct e fs).
+  induction l as [|[i x] r IH]; intro st; [reflexivity|].
+  cbn [fw_fields]. destruct (find_field fs i); [|apply IH].
+  destruct (from_wire e (fty f) x); cbn [bind]; try reflexivity. apply IH.
+Qed.
+
+Lemma required_seen_in decls seen f :
+  required_seen decls seen = true -> In f decls -> fmod f = MRequired -> In (fid f) seen.
+Proof.
+  induction decls as [|g decls IH]; intros H Hin Hreq; [contradiction|].
+  cbn [required_seen] in H. apply andb_prop in H. destruct H as [H1 H2].
+  destruct Hin as [->|Hin]; [|apply IH; assumption].
+  rewrite Hreq in H1. apply existsb_exists in H1. destruct H1 as [x [Hx Heq]].
+  apply Z.eqb_eq in Heq. subst. assumption.
+Qed.
+
+Lemma missing_required_rejected e t l k decls f :
+  shape_of e t = SStruct k decls -> In f decls -> fmod f = MRequired ->
+  ~ In (fid f) (map fst l) ->
+  forall g, from_wire e t (VRec l) <> Ok g.
+Proof.
+  intros Hs Hin Hreq Hno g H. rewrite from_wire_rec_eq, Hs in H.
+  destruct (fw_fields e decls l (new_struct e decls)); cbn [bind] in H; try discriminate.
+  destruct (required_seen decls (map fst l)) eqn:Er; cbn [negb] in H; [|discriminate].
+  apply Hno. eapply required_seen_in; eassumption.
+Qed.
+
+Lemma read_union_one e t l k decls st :
+  shape_of e t = SStruct k decls -> is_union k = true ->
+  from_wire e t (VRec l) = Ok (VStruct st) -> count_set e decls st = 1.
+Proof.
+  intros Hs Hk H. rewrite from_wire_rec_eq, Hs in H.
+  destruct (fw_fields e decls l (new_struct e decls)); cbn [bind] in H; try discriminate.
+  destruct (negb (required_seen decls (map fst l))); [discriminate|].
+  rewrite Hk in H. cbn [andb] in H.
+  destruct (count_set e decls a =? 1) eqn:E1; cbn [negb] in H; [|discriminate].
+  injection H as <-. apply Z.eqb_eq in E1. exact E1.
+Qed.
+
+(** args / result synthesis *)
+Lemma args_no_optional args f :
+  In f (map args_field args) -> fmod f <> MOptional.
+Proof.
+  intros H. apply in_map_iff in H. destruct H as [g [<- _]].
+  unfold args_field. destruct (fmod g) eqn:E; cbn; try rewrite E; discriminate.
+Qed.
+Lemma result_all_optional ret throws f :
+  In f ((match ret with Some t => [mkField 0 MOptional t None] | None => [] end) ++ map opt_field throws) ->
+  fmod f = MOptional.
+Proof.
+  intros H. apply in_app_or in H. destruct H as [H|H].
+  - destruct ret; [destruct H as [<-|[]]; reflexivity|contradiction].
+  - apply in_map_iff in H. destruct H as [g [<- _]]. reflexivity.
+Qed.
